@@ -30,6 +30,17 @@ var NotApplicable = map[string]string{
 // extra coverage keys.
 func Thorough(id string, prog *kit.Prog, ctx *kit.Ctx, verif string, seed int64, noMut bool) map[string]any {
 	out := map[string]any{}
+	if id == "C11" {
+		for k, v := range bceCrossCheck(prog, ctx) {
+			out[k] = v
+		}
+		if um, ok := out["bce_unmatched"].([]string); ok && len(um) > 0 {
+			ctx.StartRule("K1-completeness", "every compiler-unproven bounds check inside a decode-surface function has an enumerated K1 obligation", 0)
+			for _, u := range um {
+				ctx.Unk(nil, "unenumerated-bounds-check "+u, 0, "the compiler keeps a bounds check at "+u+" for which the K1 enumeration produced no obligation: the enumeration is incomplete there")
+			}
+		}
+	}
 	if !noMut {
 		exe, _ := os.Executable()
 		rs := RunMutants(exe, prog.Dir, verif, id, 8, BaselineReports(ctx))
